@@ -419,8 +419,8 @@ Section StepCongr.
     | |- context [isSpecialScheme c1 ?S] => rewrite (iss_congr S) by sc
     | |- context [cleanDefaultPort c1 ?X] => rewrite (cdp_congr X) by sc
     | |- context [percentEncodeRune c1 ?r ?t] => rewrite (per_congr c1 c2 Hlatin r t)
-    | H : invalid_pct _ = true -> c_singlePct c1 = c_singlePct c2 |- context [percentEncodeInvalidRune c1 ?r ?t] =>
-        rewrite (peir_congr c1 c2 Hlatin r t) by (apply H; assumption)
+    | H : _ -> c_singlePct c1 = c_singlePct c2 |- context [percentEncodeInvalidRune c1 ?r ?t] =>
+        rewrite (peir_congr c1 c2 Hlatin r t) by (apply H; first [assumption | reflexivity])
     | |- context [cred_loop c1 ?l ?a ?b ?c] => rewrite (cred_congr l a b c)
     | |- context [c_pathSet c1] => rewrite HpathSet
     | |- context [c_squerySet c1] => rewrite Hsq
@@ -444,19 +444,33 @@ Section StepCongr.
     | |- ?X = ?Y => reflexivity
     end.
 
-  Lemma step_congr (m : mstate) :
+  Ltac dd :=
+    lazymatch goal with
+    | |- (if ?b then _ else _) _ = _ \/ _ => destruct b eqn:?; cbn beta; norm
+    | |- (if ?b then _ else _) = _ \/ _ => destruct b eqn:?; norm
+    end.
+  Ltac ph Hhost :=
+    lazymatch goal with
+    | |- match parseHost idna_raw c1 ?u ?b ?ns with _ => _ end = _ \/ _ =>
+        let Heq := fresh "Heq" in let Her := fresh "Her" in
+        let HQ := fresh "HQ" in
+        destruct (Hhost ns) as [Heq|[HQ [? [? Her]]]];
+        [left; rewrite Heq; reflexivity | right; split; [exact HQ|rewrite Her; eauto]]
+    end.
+
+  Lemma step_congr (Q : Prop) (m : mstate) :
     (scheme_read ov (m_state m) = true ->
        getSpecialScheme c1 (u_scheme (m_url m)) = getSpecialScheme c2 (u_scheme (m_url m))) ->
     (m_state m = Scheme -> getSpecialScheme c1 (m_buf m) = getSpecialScheme c2 (m_buf m)) ->
     (m_state m = HostSt \/ m_state m = HostnameSt \/ m_state m = FileHost -> forall ns,
        parseHost idna_raw c1 (m_url m) (m_buf m) ns = parseHost idna_raw c2 (m_url m) (m_buf m) ns
-       \/ exists u e, parseHost idna_raw c1 (m_url m) (m_buf m) ns = Er u e) ->
+       \/ (Q /\ exists u e, parseHost idna_raw c1 (m_url m) (m_buf m) ns = Er u e)) ->
     (forall b, rune_at inp (m_ptr m + 1) = Some (Bad b) -> c_acceptInvalid c1 = c_acceptInvalid c2) ->
     (invalid_pct (rest_from inp (m_ptr m + 1)) = true -> c_singlePct c1 = c_singlePct c2) ->
     (m_state m = PathSt -> forall u sl, u_scheme u = u_scheme (m_url m) -> u_path u = u_path (m_url m) ->
        seg_end c1 u (m_buf m) sl = seg_end c2 u (m_buf m) sl) ->
     step idna_raw c1 inp base ov m = step idna_raw c2 inp base ov m
-    \/ exists u e, step idna_raw c1 inp base ov m = RetErr u e.
+    \/ (Q /\ exists u e, step idna_raw c1 inp base ov m = RetErr u e).
   Proof.
     intros Hs_u Hs_buf Hhost Hacc Hpct Hseg.
     destruct (state_eqb (m_state m) PathSt) eqn:EP.
@@ -468,7 +482,7 @@ Section StepCongr.
       set (p := (p0 + 1)%Z) in *.
       set (r := if (n_inp inp <=? p)%Z then rune_error else cp_at inp p).
       set (eof := if (n_inp inp <=? p)%Z then true else e0).
-      repeat desc. Show. }
+      repeat desc. }
     destruct m as [st p0 e0 buf atF brF pwF u]. cbn [m_state m_ptr m_eof m_buf m_at m_br m_pw m_url] in *.
     unfold step. cbn [m_state m_ptr m_eof m_buf m_at m_br m_pw m_url].
     set (p := (p0 + 1)%Z) in *.
@@ -477,7 +491,247 @@ Section StepCongr.
     destruct st; try discriminate EP; clear EP Hseg;
       try specialize (Hs_u eq_refl); try specialize (Hs_buf eq_refl).
     all: try solve [left; repeat desc].
-    all: match goal with |- step _ _ _ _ _ {| m_state := ?s |} = _ \/ _ => idtac s | |- _ => idtac "other" end.
-    Show.
-  Abort.
+    - (* Scheme *)
+      left. unfold overridden. cbn [scheme_read] in Hs_u.
+      destruct (is_some ov) eqn:Eov; cbn [andb negb].
+      + specialize (Hs_u eq_refl). repeat desc.
+      + repeat desc.
+    - (* HostSt *)
+      specialize (Hhost (or_introl eq_refl)). norm.
+      dd; [left; reflexivity|].
+      dd.
+      + dd; cbn beta; [left; apply mherr_fail_congr|].
+        dd; [left; reflexivity|]. ph Hhost.
+      + dd.
+        * dd; [left; repeat desc|]. dd; [left; reflexivity|]. ph Hhost.
+        * left. destruct (rune_at inp p) as [[g|b]|] eqn:Er; try reflexivity.
+          rewrite (Hacc b eq_refl). reflexivity.
+    - (* HostnameSt *)
+      specialize (Hhost (or_intror (or_introl eq_refl))). norm.
+      dd; [left; reflexivity|].
+      dd.
+      + dd; cbn beta; [left; apply mherr_fail_congr|].
+        dd; [left; reflexivity|]. ph Hhost.
+      + dd.
+        * dd; [left; repeat desc|]. dd; [left; reflexivity|]. ph Hhost.
+        * left. destruct (rune_at inp p) as [[g|b]|] eqn:Er; try reflexivity.
+          rewrite (Hacc b eq_refl). reflexivity.
+    - (* FileHost *)
+      specialize (Hhost (or_intror (or_intror eq_refl))). norm.
+      dd; [|left; reflexivity].
+      dd; [left; repeat desc|].
+      dd; [left; reflexivity|].
+      ph Hhost.
+  Qed.
+
+  (* the same with equal host parsing: the steps are equal *)
+  Lemma step_congr_eq (m : mstate) :
+    (scheme_read ov (m_state m) = true ->
+       getSpecialScheme c1 (u_scheme (m_url m)) = getSpecialScheme c2 (u_scheme (m_url m))) ->
+    (m_state m = Scheme -> getSpecialScheme c1 (m_buf m) = getSpecialScheme c2 (m_buf m)) ->
+    (m_state m = HostSt \/ m_state m = HostnameSt \/ m_state m = FileHost -> forall ns,
+       parseHost idna_raw c1 (m_url m) (m_buf m) ns = parseHost idna_raw c2 (m_url m) (m_buf m) ns) ->
+    (forall b, rune_at inp (m_ptr m + 1) = Some (Bad b) -> c_acceptInvalid c1 = c_acceptInvalid c2) ->
+    (invalid_pct (rest_from inp (m_ptr m + 1)) = true -> c_singlePct c1 = c_singlePct c2) ->
+    (m_state m = PathSt -> forall u sl, u_scheme u = u_scheme (m_url m) -> u_path u = u_path (m_url m) ->
+       seg_end c1 u (m_buf m) sl = seg_end c2 u (m_buf m) sl) ->
+    step idna_raw c1 inp base ov m = step idna_raw c2 inp base ov m.
+  Proof.
+    intros Hs_u Hs_buf Hhost Hacc Hpct Hseg.
+    destruct (step_congr False m Hs_u Hs_buf) as [E|[[] _]]; auto.
+  Qed.
 End StepCongr.
+
+(* ------------------------------------------------------------------ *)
+(* Lock-step simulation of two runs                                    *)
+(* ------------------------------------------------------------------ *)
+(* r1 ~ r2: equal, or the first run returned an error *)
+Definition res_le (r1 r2 : result) : Prop := r1 = r2 \/ exists u e, r1 = RErr u e.
+
+Section RunSim.
+  Variable idna_raw : str -> str * bool.
+  Variables c1 c2 : cfg.
+  Variable inp : list rune.
+  Variable base : option url.
+  Variable ov : option state.
+  Variable I : mstate -> Prop.
+  Notation step1 := (step idna_raw c1 inp base ov).
+  Notation step2 := (step idna_raw c2 inp base ov).
+  Hypothesis Hinv : forall m m', I m -> step1 m = Cont m' -> m_eof m' = false -> I m'.
+
+  Lemma run_sim :
+    (forall m, I m -> step1 m = step2 m \/ exists u e, step1 m = RetErr u e) ->
+    forall fuel m, I m ->
+      res_le (run idna_raw c1 inp base ov fuel m) (run idna_raw c2 inp base ov fuel m).
+  Proof.
+    intros Hstep. induction fuel as [|f IH]; intros m Hm; [left; reflexivity|].
+    cbn [run]. destruct (Hstep m Hm) as [E|[u [e E]]].
+    - rewrite <- E. destruct (step1 m) as [m'| | | |] eqn:S; try (left; reflexivity).
+      destruct (m_eof m') eqn:Ee; [left; reflexivity|]. apply IH. apply (Hinv m m' Hm S Ee).
+    - rewrite E. right. eauto.
+  Qed.
+
+  Lemma run_sim_eq :
+    (forall m, I m -> step1 m = step2 m) ->
+    forall fuel m, I m -> run idna_raw c1 inp base ov fuel m = run idna_raw c2 inp base ov fuel m.
+  Proof.
+    intros Hstep. induction fuel as [|f IH]; intros m Hm; [reflexivity|].
+    cbn [run]. rewrite <- (Hstep m Hm). destruct (step1 m) as [m'| | | |] eqn:S; try reflexivity.
+    destruct (m_eof m') eqn:Ee; [reflexivity|]. apply IH. apply (Hinv m m' Hm S Ee).
+  Qed.
+End RunSim.
+
+(* ------------------------------------------------------------------ *)
+(* BasicParser: the machine is run on the cleaned input                *)
+(* ------------------------------------------------------------------ *)
+From Verif Require Import Proofs.Cleaning.
+
+Definition cleaned (x : str) (u0 : option url) : str :=
+  match u0 with Some _ => fst (remove_tabnl x) | None => clean x end.
+Definition start_url (x : str) (u0 : option url) : url :=
+  match u0 with Some u => u | None => empty_url x end.
+Definition init_m (ov : option state) (u : url) : mstate :=
+  mk (match ov with Some s => s | None => SchemeStart end) (-1)%Z false [] false false false u.
+
+Lemma url_eta u : set_input (set_verrs u (u_verrs u)) (u_input u) = u.
+Proof. destruct u; reflexivity. Qed.
+
+Section BP.
+  Variable idna_raw : str -> str * bool.
+  Variable b : option url.
+  Variable ov : option state.
+
+  Definition machine_run (c : cfg) (i : str) (u : url) : result :=
+    run idna_raw c (decode i) (option_map clone b) ov (fuel_of (length (decode i))) (init_m ov u).
+
+  Definition bp_start (c : cfg) (u : url) : result :=
+    let '(i, changed) := remove_tabnl (u_input u) in
+    let k (u : url) : result := machine_run c (u_input u) u in
+    if changed then
+      match handleError c u InvalidURLUnit false with
+      | (u', Some e) => RErr u' e
+      | (u', None) => k (set_input u' i)
+      end
+    else k u.
+
+  Lemma BasicParser_start c x u0 :
+    BasicParser idna_raw c x b u0 ov =
+    match u0 with
+    | Some u => bp_start c (set_input u x)
+    | None =>
+        let u := empty_url x in
+        let '(i, changed) := trim_c0space x in
+        if changed then
+          match handleError c u InvalidURLUnit false with
+          | (u', Some e) => RErr u' e
+          | (u', None) => bp_start c (set_input u' i)
+          end
+        else bp_start c u
+    end.
+  Proof. reflexivity. Qed.
+
+  (* the shape of a BasicParser call depends on the configuration only through c_report and c_fail *)
+  Definition bp_shape (F : cfg -> result) (c : cfg) (s : url) (i : str) : Prop :=
+    (exists u e, forall c', c_report c' = c_report c -> c_fail c' = c_fail c -> F c' = RErr u e)
+    \/ (exists v, forall c', c_report c' = c_report c -> c_fail c' = c_fail c ->
+          F c' = machine_run c' i (set_input (set_verrs s v) i)).
+
+  Lemma handleError_dep c c' u t f : c_report c' = c_report c -> c_fail c' = c_fail c ->
+    handleError c' u t f = handleError c u t f.
+  Proof. intros H1 H2. unfold handleError. rewrite H1, H2. reflexivity. Qed.
+
+  Lemma bp_start_shape c s v j :
+    bp_shape (fun c' => bp_start c' (set_input (set_verrs s v) j)) c s (fst (remove_tabnl j)).
+  Proof.
+    unfold bp_shape, bp_start. cbn [u_input set_input].
+    destruct (remove_tabnl j) as [i ch] eqn:Er. cbn [fst].
+    destruct ch.
+    - destruct (handleError c (set_input (set_verrs s v) j) InvalidURLUnit false) as [u' [e|]] eqn:He.
+      + left. exists u', e. intros c' H1 H2. rewrite (handleError_dep c c' _ _ _ H1 H2), He. reflexivity.
+      + right. destruct (handleError_shape c (set_input (set_verrs s v) j) InvalidURLUnit false) as [w Hw].
+        rewrite He in Hw. cbn [fst] in Hw. exists w. intros c' H1 H2.
+        rewrite (handleError_dep c c' _ _ _ H1 H2), He. subst u'. reflexivity.
+    - right. exists v. intros c' _ _.
+      pose proof (remove_unchanged j) as H. rewrite Er in H. cbn [fst snd] in H. rewrite (H eq_refl). reflexivity.
+  Qed.
+
+  Lemma BasicParser_shape c x u0 :
+    bp_shape (fun c' => BasicParser idna_raw c' x b u0 ov) c (start_url x u0) (cleaned x u0).
+  Proof.
+    destruct u0 as [u|]; cbn [start_url cleaned].
+    - pose proof (bp_start_shape c u (u_verrs u) x) as H.
+      unfold bp_shape in *. destruct H as [[u' [e H]]|[v H]].
+      + left. exists u', e. intros c' H1 H2. rewrite BasicParser_start. rewrite <- (H c' H1 H2). reflexivity.
+      + right. exists v. intros c' H1 H2. rewrite BasicParser_start. rewrite <- (H c' H1 H2). reflexivity.
+    - unfold clean. destruct (trim_c0space x) as [i ch] eqn:Et. cbn [fst].
+      destruct ch.
+      + destruct (handleError c (empty_url x) InvalidURLUnit false) as [u' [e|]] eqn:He.
+        * left. exists u', e. intros c' H1 H2. rewrite BasicParser_start. cbv zeta. rewrite Et.
+          rewrite (handleError_dep c c' _ _ _ H1 H2), He. reflexivity.
+        * destruct (handleError_shape c (empty_url x) InvalidURLUnit false) as [w Hw].
+          rewrite He in Hw. cbn [fst] in Hw. subst u'.
+          pose proof (bp_start_shape c (empty_url x) w i) as H.
+          assert (E : set_input (set_verrs (empty_url x) w) i = set_input (set_verrs (empty_url x) w) i) by reflexivity.
+          unfold bp_shape in *. destruct H as [[u' [e H]]|[v H]].
+          -- left. exists u', e. intros c' H1 H2. rewrite BasicParser_start. cbv zeta. rewrite Et.
+             rewrite (handleError_dep c c' _ _ _ H1 H2), He. apply (H c' H1 H2).
+          -- right. exists v. intros c' H1 H2. rewrite BasicParser_start. cbv zeta. rewrite Et.
+             rewrite (handleError_dep c c' _ _ _ H1 H2), He. apply (H c' H1 H2).
+      + pose proof (trim_unchanged x) as Hx. rewrite Et in Hx. cbn [fst snd] in Hx. specialize (Hx eq_refl). subst i.
+        pose proof (bp_start_shape c (empty_url x) [] x) as H.
+        unfold bp_shape in *. destruct H as [[u' [e H]]|[v H]].
+        * left. exists u', e. intros c' H1 H2. rewrite BasicParser_start. cbv zeta. rewrite Et. apply (H c' H1 H2).
+        * right. exists v. intros c' H1 H2. rewrite BasicParser_start. cbv zeta. rewrite Et. apply (H c' H1 H2).
+  Qed.
+
+  (* lifting a relation between runs to BasicParser *)
+  Lemma BasicParser_lift c1 c2 x u0 :
+    c_report c1 = c_report c2 -> c_fail c1 = c_fail c2 ->
+    (forall v, let i := cleaned x u0 in
+       res_le (machine_run c1 i (set_input (set_verrs (start_url x u0) v) i))
+              (machine_run c2 i (set_input (set_verrs (start_url x u0) v) i))) ->
+    res_le (BasicParser idna_raw c1 x b u0 ov) (BasicParser idna_raw c2 x b u0 ov).
+  Proof.
+    intros H1 H2 H. destruct (BasicParser_shape c2 x u0) as [[u [e S]]|[v S]].
+    - left. rewrite (S c1 H1 H2), (S c2 eq_refl eq_refl). reflexivity.
+    - rewrite (S c1 H1 H2), (S c2 eq_refl eq_refl). apply H.
+  Qed.
+
+  Lemma BasicParser_lift_eq c1 c2 x u0 :
+    c_report c1 = c_report c2 -> c_fail c1 = c_fail c2 ->
+    (forall v, let i := cleaned x u0 in
+       machine_run c1 i (set_input (set_verrs (start_url x u0) v) i) =
+       machine_run c2 i (set_input (set_verrs (start_url x u0) v) i)) ->
+    BasicParser idna_raw c1 x b u0 ov = BasicParser idna_raw c2 x b u0 ov.
+  Proof.
+    intros H1 H2 H. destruct (BasicParser_shape c2 x u0) as [[u [e S]]|[v S]].
+    - rewrite (S c1 H1 H2), (S c2 eq_refl eq_refl). reflexivity.
+    - rewrite (S c1 H1 H2), (S c2 eq_refl eq_refl). apply H.
+  Qed.
+End BP.
+
+(* ------------------------------------------------------------------ *)
+(* The common case: the two configurations agree on every field that    *)
+(* is not the subject of one of the neutrality theorems                 *)
+(* ------------------------------------------------------------------ *)
+Definition agree_core (c1 c2 : cfg) : Prop :=
+  c_report c1 = c_report c2 /\ c_fail c1 = c_fail c2 /\ c_latin1 c1 = c_latin1 c2 /\
+  c_skipTrailSlash c1 = c_skipTrailSlash c2 /\ c_pathSet c1 = c_pathSet c2 /\ c_squerySet c1 = c_squerySet c2 /\
+  c_querySet c1 = c_querySet c2 /\ c_sfragSet c1 = c_sfragSet c2 /\ c_fragSet c1 = c_fragSet c2 /\
+  c_pre c1 = c_pre c2 /\ c_post c1 = c_post c2.
+
+Lemma step_eq_simple idna_raw c1 c2 inp base ov m :
+  agree_core c1 c2 -> c_special c1 = c_special c2 -> c_lax c1 = c_lax c2 ->
+  (c_lax c1 = true -> c_singlePct c1 = c_singlePct c2) ->
+  (forall b, rune_at inp (m_ptr m + 1) = Some (Bad b) -> c_acceptInvalid c1 = c_acceptInvalid c2) ->
+  (invalid_pct (rest_from inp (m_ptr m + 1)) = true -> c_singlePct c1 = c_singlePct c2) ->
+  (m_state m = PathSt -> forall u sl, u_scheme u = u_scheme (m_url m) -> u_path u = u_path (m_url m) ->
+     seg_end c1 u (m_buf m) sl = seg_end c2 u (m_buf m) sl) ->
+  step idna_raw c1 inp base ov m = step idna_raw c2 inp base ov m.
+Proof.
+  intros (Hrep & Hfail & Hlatin & Hsts & Hps & Hsq & Hq & Hsf & Hf & Hpre & Hpost) Hspec Hlax Hlsp Hacc Hpct Hseg.
+  assert (G : forall s, getSpecialScheme c1 s = getSpecialScheme c2 s)
+    by (intros s; unfold getSpecialScheme; rewrite Hspec; reflexivity).
+  apply step_congr_eq; auto.
+  intros _ ns. apply parseHost_congr; assumption.
+Qed.
